@@ -23,7 +23,7 @@ from pathlib import Path
 
 PREFIXES = ("add_", "remove_", "update_", "scale_", "make_")
 CONTAINERS = {"_variables", "_parameters", "_derived", "_readouts", "_reactions", "_surrogates", "_data"}
-ALLOWED_STMTS = (ast.Expr, ast.Assign, ast.AnnAssign, ast.If, ast.For, ast.Return, ast.Raise, ast.Delete)
+ALLOWED_STMTS = (ast.Expr, ast.Assign, ast.AnnAssign, ast.If, ast.For, ast.Return, ast.Raise, ast.Delete, ast.Pass)
 
 
 class Unsupported(Exception):
@@ -234,7 +234,8 @@ def extract(model_py: Path):
         unknown = set(decos) - {"_invalidate_cache"}
         if unknown:
             raise Unsupported(f"unknown decorator {unknown} on {m.name}")
-        ev = _events(m.body, set(names))
+        # the events are read off the body in guard form (`if c: … else: raise` = `if not c: raise; …`)
+        ev = _events(_norm_stmts(m.body, _msg_names(m)), set(names))
         if "X" in ev:
             raise Unsupported(f"{m.name} assigns self._cache directly")
         kinds = [e[0] for e in ev]
@@ -270,7 +271,11 @@ def extract(model_py: Path):
             "ctx": [e[2:] for e in ev if e[0] == "I"],
             "containers": [e.split(":")[1] for e in ev if e[0] == "C"],
             # the rejecting statements themselves (conditions included), normalised like the helper bodies
-            "guards": [x for x in _normalised_body(m) if "raise" in x],
+            # (`_normalised_body` renames the locals of `m` IN PLACE; `check_calls` below reads the renamed tree)
+            "body": (nb := _normalised_body(m)),
+            "guards": [x for x in nb if "raise" in x],
+            # the arguments the `_check_*` helpers are called with
+            "check_args": check_calls(m),
         })
     return rows
 
@@ -558,9 +563,93 @@ def surface(cls, mutators):
     return rows, live
 
 
+def _neg(e):
+    """the negation of a condition, with `not` pushed inwards (comparison flipped, De Morgan, double negation)"""
+    if isinstance(e, ast.UnaryOp) and isinstance(e.op, ast.Not):
+        return _norm_cond(e.operand)
+    if isinstance(e, ast.Compare) and len(e.ops) == 1:
+        flip = {ast.In: ast.NotIn, ast.NotIn: ast.In, ast.Is: ast.IsNot, ast.IsNot: ast.Is, ast.Eq: ast.NotEq,
+                ast.NotEq: ast.Eq}
+        t = type(e.ops[0])
+        if t in flip:
+            return ast.Compare(left=e.left, ops=[flip[t]()], comparators=e.comparators)
+    if isinstance(e, ast.BoolOp):
+        op = ast.Or() if isinstance(e.op, ast.And) else ast.And()
+        return _norm_cond(ast.BoolOp(op=op, values=[_neg(v) for v in e.values]))
+    return ast.UnaryOp(op=ast.Not(), operand=_norm_cond(e))
+
+
+def _norm_cond(e):
+    """a condition in normal form: no `not` above a comparison / `and` / `or`; the operands of `and` / `or` flattened
+    and ordered by their text (the conditions of the mutators are free of side effects: commuting them changes nothing)"""
+    if isinstance(e, ast.UnaryOp) and isinstance(e.op, ast.Not):
+        return _neg(e.operand)
+    if isinstance(e, ast.BoolOp):
+        vals = []
+        for v in e.values:
+            v = _norm_cond(v)
+            if isinstance(v, ast.BoolOp) and type(v.op) is type(e.op):
+                vals += v.values
+            else:
+                vals.append(v)
+        vals.sort(key=lambda v: ast.unparse(v))
+        return ast.BoolOp(op=e.op, values=vals)
+    return e
+
+
+def _is_raise_only(body):
+    return len(body) == 1 and isinstance(body[0], ast.Raise)
+
+
+def _norm_stmts(body, msg_names):
+    """statement list in normal form: docstrings, message assignments and logging dropped; annotated assignments as
+    plain ones; `if c: <stmts> else: raise` and `if c: raise else: <stmts>` as the guard `if …: raise` followed by the
+    statements; conditions through `_norm_cond`"""
+    out = []
+    for st in body:
+        if isinstance(st, ast.Expr) and isinstance(st.value, ast.Constant):
+            continue
+        if (isinstance(st, ast.Assign) and len(st.targets) == 1 and isinstance(st.targets[0], ast.Name)
+                and st.targets[0].id in msg_names):
+            continue
+        if isinstance(st, ast.AnnAssign) and st.value is not None and isinstance(st.target, ast.Name):
+            if st.target.id in msg_names:
+                continue
+            st = ast.Assign(targets=[st.target], value=st.value, lineno=st.lineno)
+        if isinstance(st, ast.If):
+            body_n, else_n = _norm_stmts(st.body, msg_names), _norm_stmts(st.orelse, msg_names)
+            if else_n and _is_raise_only(else_n) and not _is_raise_only(body_n):
+                out.append(ast.If(test=_neg(st.test), body=else_n, orelse=[]))
+                out += body_n
+                continue
+            if else_n and _is_raise_only(body_n):
+                out.append(ast.If(test=_norm_cond(st.test), body=body_n, orelse=[]))
+                out += else_n
+                continue
+            st = ast.If(test=_norm_cond(st.test), body=body_n or [ast.Pass()], orelse=else_n)
+        elif isinstance(st, ast.For):
+            st = ast.For(target=st.target, iter=st.iter, body=_norm_stmts(st.body, msg_names) or [ast.Pass()],
+                         orelse=_norm_stmts(st.orelse, msg_names))
+        out.append(st)
+    return out
+
+
+def _msg_names(fn):
+    """names that only carry an exception message: assigned, and used nowhere but as the argument of `raise C(name)`"""
+    raised_with = {n.exc.args[0].id for n in ast.walk(fn) if isinstance(n, ast.Raise) and isinstance(n.exc, ast.Call)
+                   and len(n.exc.args) == 1 and isinstance(n.exc.args[0], ast.Name)}
+    raise_arg_nodes = {id(n.exc.args[0]) for n in ast.walk(fn) if isinstance(n, ast.Raise)
+                       and isinstance(n.exc, ast.Call) and len(n.exc.args) == 1 and isinstance(n.exc.args[0], ast.Name)}
+    used_elsewhere = {n.id for n in ast.walk(fn) if isinstance(n, ast.Name) and isinstance(n.ctx, ast.Load)
+                      and id(n) not in raise_arg_nodes}
+    return raised_with - used_elsewhere
+
+
 def _normalised_body(fn):
-    """the statements of a small helper, one string each: docstring and `msg = …` lines dropped, `raise C(msg)` →
-    `raise C`, parameters and locals renamed v0, v1, … by first appearance (so renaming a local is not a change)"""
+    """the statements of a function, one string each, in a normal form that only a change of MEANING alters:
+    docstrings, messages (whatever the variable is called, f-string or not) and logging dropped, `raise C(…)` → `raise C`,
+    parameters and locals renamed v0, v1, … by first appearance, `typing.cast` removed, conditions with `not` pushed
+    inwards and `and` / `or` operands ordered, `if c: … else: raise` written as the guard it is"""
     ren = {}
 
     def nm(x):
@@ -578,6 +667,7 @@ def _normalised_body(fn):
     for n in ast.walk(fn):
         if isinstance(n, ast.Name) and isinstance(n.ctx, ast.Store):
             local.add(n.id)
+    msg_names = _msg_names(fn)
     for a in fn.args.args + fn.args.kwonlyargs:
         nm(a.arg)
 
@@ -601,32 +691,64 @@ def _normalised_body(fn):
                 return ast.Constant(value=None)
             return node
 
-    def stmts(body):
-        out = []
-        for st in body:
-            if isinstance(st, ast.Expr) and isinstance(st.value, ast.Constant):
-                continue
-            if (isinstance(st, ast.Assign) and len(st.targets) == 1 and isinstance(st.targets[0], ast.Name)
-                    and st.targets[0].id == "msg"):
-                continue
-            if isinstance(st, ast.AnnAssign) and st.value is not None and isinstance(st.target, ast.Name):
-                st = ast.Assign(targets=[st.target], value=st.value, lineno=st.lineno)
-            if isinstance(st, (ast.If, ast.For)):
-                st = type(st)(**{**{f: getattr(st, f) for f in st._fields}, "body": stmts(st.body) or [ast.Pass()],
-                                 "orelse": stmts(st.orelse)})
-            out.append(st)
-        return out
-
-    body = stmts(fn.body)
     out = []
-    for st in body:
+    for st in _norm_stmts(fn.body, msg_names):
         st = ast.fix_missing_locations(Ren().visit(st))
         if isinstance(st, ast.Expr) and isinstance(st.value, ast.Constant) and st.value.value is None:
             continue
         txt = ast.unparse(st)
         txt = "; ".join(l.strip() for l in txt.splitlines() if l.strip() not in ("None",))
         out.append(txt)
+    # consecutive keyword overrides `if vK is not None: obj.attr = vK` touch different attributes: their order is free
+    import re
+
+    pat = re.compile(r"^if (v\d+) is not None:; v\d+\.\w+ = \1$")
+    i = 0
+    while i < len(out):
+        j = i
+        while j < len(out) and pat.match(out[j]):
+            j += 1
+        if j - i > 1 and len({x.split(" = ")[0].split("; ")[1] for x in out[i:j]}) == j - i:
+            out[i:j] = sorted(out[i:j])
+        i = max(j, i + 1)
     return out
+
+
+def check_calls(fn):
+    """the `self._check_*(…)` calls of a mutator with their arguments (keyword order irrelevant, the `ctx=` / `kind=`
+    texts — they only feed messages — dropped), normalised like the bodies"""
+    out = []
+    for n in ast.walk(fn):
+        name = _self_call(n)
+        if name is None or not name.startswith("_check_"):
+            continue
+        if n.args:
+            raise Unsupported(f"positional arguments in {name} call of {fn.name}")
+        kws = sorted((kw.arg, ast.unparse(kw.value)) for kw in n.keywords if kw.arg not in ("ctx", "kind"))
+        if any(k is None for k, _ in kws):
+            raise Unsupported(f"**kwargs in {name} call of {fn.name}")
+        out.append((n.lineno, n.col_offset, name + "(" + ", ".join(f"{k}={v}" for k, v in kws) + ")"))
+    return [t for _, _, t in sorted(out)]
+
+
+def cache_reads(cls):
+    """the model's own dictionaries `_create_cache` looks at, directly or through calls on `self` (sorted)"""
+    meths = {n.name: n for n in cls.body if isinstance(n, ast.FunctionDef)}
+    if "_create_cache" not in meths:
+        raise Unsupported("_create_cache not found")
+    seen, todo, reads = set(), ["_create_cache"], set()
+    while todo:
+        f = todo.pop()
+        if f in seen:
+            continue
+        seen.add(f)
+        for n in ast.walk(meths[f]):
+            if _is_self_attr(n):
+                if n.attr in CONTAINERS:
+                    reads.add(n.attr)
+                elif n.attr in meths:
+                    todo.append(n.attr)
+    return sorted(reads)
 
 
 def helper_bodies(tree, cls):
@@ -685,7 +807,7 @@ def _lstr(x):
     return '"' + x.replace("\\", "\\\\").replace('"', '\\"') + '"'
 
 
-def render(rows, eqf, arity_body, chain, surf=None, live=(), helpers=()) -> str:
+def render(rows, eqf, arity_body, chain, surf=None, live=(), helpers=(), creads=()) -> str:
     names = [r["name"] for r in rows]
     L = []
     L.append("-- GENERATED by translate/c03.py from src/mxlpy/model.py (class Model); do not edit")
@@ -777,6 +899,19 @@ def render(rows, eqf, arity_body, chain, surf=None, live=(), helpers=()) -> str:
     for r in rows:
         L.append(f"  | .{r['name']} => [" + ", ".join(_lstr(g) for g in r["guards"]) + "]")
     L.append("")
+    L.append("/-- the `self._check_*(…)` calls with their arguments, in source order (`ctx=` / `kind=` only feed messages) -/")
+    L.append("def checkArgs : Mut → List String")
+    for r in rows:
+        L.append(f"  | .{r['name']} => [" + ", ".join(_lstr(g) for g in r["check_args"]) + "]")
+    L.append("")
+    L.append("/-- the complete normalised bodies of the three surrogate mutators (every statement, in order) -/")
+    L.append("def surrogateBodies : List (String × List String) := [")
+    L.append(",\n".join(f"  ({_lstr(r['name'])}, [" + ", ".join(_lstr(x) for x in r["body"]) + "])"
+                        for r in rows if r["name"].endswith("_surrogate")) + "]")
+    L.append("")
+    L.append("/-- the model's own dictionaries `_create_cache` reads, directly or through calls on `self` -/")
+    L.append(f"def cacheReads : List String := {_strs(creads)}")
+    L.append("")
     L.append("/-- dataclass fields of `Model` that the generated `__eq__` compares (no `compare=False`) -/")
     L.append(f"def eqFields : List String := {_strs(eqf)}")
     L.append("")
@@ -836,7 +971,7 @@ def generate(repo: Path, outdir: Path) -> None:
     tree, cls = _model_class(src)
     surf, live = surface(cls, {r["name"] for r in rows})
     text = render(rows, eq_fields(cls), check_function_arity(tree), arity_checked(cls), surf, live,
-                  helper_bodies(tree, cls))
+                  helper_bodies(tree, cls), cache_reads(cls))
     outdir.mkdir(parents=True, exist_ok=True)
     out = outdir / "C03Mutators.lean"
     if not out.exists() or hashlib.sha1(out.read_bytes()).hexdigest() != hashlib.sha1(text.encode()).hexdigest():
